@@ -194,10 +194,10 @@ Proof.
   unfold new_dec_coin. destruct (chop_round _ <? 0) eqn:E2; [lia|]. simpl. rewrite IH. simpl. eauto.
 Qed.
 
-Lemma spend_pool_step_safe : forall now p B, B <= 2 ^ 150 -> psafe B p ->
-  exists p', spend_pool_step now p = Ok p' /\ psafe B p'.
+Lemma spend_pool_step_safe : forall g now p B, B <= 2 ^ 150 -> psafe B p ->
+  exists p', spend_pool_step g now p = Ok p' /\ psafe B p'.
 Proof.
-  intros now p B HB Hp. pose proof Hp as (H1 & H2 & H3). unfold spend_pool_step.
+  intros g now p B HB Hp. pose proof Hp as (H1 & H2 & H3). unfold spend_pool_step.
   destruct (sp_dyn p) eqn:D; simpl; [|eauto].
   destruct (now <? wrap64 (sp_period p + sp_last p)); [eauto|].
   destruct (sp_weight p =? 0) eqn:W; [eauto|].
@@ -208,15 +208,18 @@ Proof.
   { apply dec_in_range_small. rewrite Z.abs_eq by lia. unfold two63 in *.
     change (2 ^ 315) with (9223372036854775808 * 2 ^ 252). assert (2 ^ 150 < 2 ^ 252) by reflexivity. nia. }
   unfold dmul. rewrite M, chop_round_mul_exact by lia. rewrite R. simpl.
+  assert (G : g && (sp_period p * sp_weight p <=? 0) = false).
+  { apply Z.eqb_neq in W. destruct g; [|reflexivity]. simpl. apply Z.leb_gt. nia. }
+  rewrite G.
   destruct (pool_rates_ok (sp_period p * sp_weight p) (sp_bals p)) as [rs Hrs]; [nia|assumption|].
   rewrite Hrs. simpl. eexists; split; [reflexivity|]. repeat split; simpl; try tauto; try lia.
 Qed.
 
-Lemma spend_endblock_safe : forall now ps B, B <= 2 ^ 150 -> Forall (psafe B) ps ->
-  exists ps', spend_endblock now ps = Ok ps' /\ Forall (psafe B) ps'.
+Lemma spend_endblock_safe : forall g now ps B, B <= 2 ^ 150 -> Forall (psafe B) ps ->
+  exists ps', spend_endblock g now ps = Ok ps' /\ Forall (psafe B) ps'.
 Proof.
-  intros now ps B HB H. induction H as [|p l Hp Hl IH]; [exists []; split; [reflexivity|constructor]|].
-  destruct (spend_pool_step_safe now p B HB Hp) as (p' & E & Hp').
+  intros g now ps B HB H. induction H as [|p l Hp Hl IH]; [exists []; split; [reflexivity|constructor]|].
+  destruct (spend_pool_step_safe g now p B HB Hp) as (p' & E & Hp').
   destruct IH as (l' & El & Hl'). simpl. rewrite E. simpl. rewrite El. simpl.
   eexists; split; [reflexivity|constructor; assumption].
 Qed.
@@ -228,10 +231,10 @@ Proof.
   destruct i; simpl; constructor; auto. eapply Forall_impl; [|exact Hl]. auto.
 Qed.
 
-Lemma sstep_safe : forall o ps B, B + 2 ^ 100 <= 2 ^ 150 -> 0 <= B -> sop_ok o = true -> Forall (psafe B) ps ->
-  exists ps', sstep (Ok ps) o = Ok ps' /\ Forall (psafe (B + 2 ^ 100)) ps'.
+Lemma sstep_safe : forall g o ps B, B + 2 ^ 100 <= 2 ^ 150 -> 0 <= B -> sop_ok o = true -> Forall (psafe B) ps ->
+  exists ps', sstep g (Ok ps) o = Ok ps' /\ Forall (psafe (B + 2 ^ 100)) ps'.
 Proof.
-  intros o ps B HB HB0 Ho H. assert (P100 : 0 < 2 ^ 100) by reflexivity.
+  intros g o ps B HB HB0 Ho H. assert (P100 : 0 < 2 ^ 100) by reflexivity.
   assert (Hm : Forall (psafe (B + 2 ^ 100)) ps) by (eapply Forall_impl; [|exact H]; intros; eapply psafe_mono; [|eassumption]; lia).
   destruct o as [dyn period now|i w|i amt|now]; unfold sop_ok in Ho.
   - eexists; split; [reflexivity|]. apply Forall_app. split; [assumption|]. constructor; [|constructor].
@@ -244,38 +247,83 @@ Proof.
     + intros; eapply psafe_mono; [|eassumption]; lia.
     + intros p (H1 & H2 & H3). unfold psafe; cbn [sp_dyn sp_period sp_weight sp_bals sp_last]. repeat split; try tauto; try lia.
       constructor; [lia|assumption].
-  - destruct (spend_endblock_safe now ps (B + 2 ^ 100) HB Hm) as (ps' & E & H'). exists ps'. split; [exact E|assumption].
+  - destruct (spend_endblock_safe g now ps (B + 2 ^ 100) HB Hm) as (ps' & E & H'). exists ps'. split; [exact E|assumption].
 Qed.
 
-Lemma srun_safe_gen : forall ops ps B, 0 <= B -> B + Z.of_nat (List.length ops) * 2 ^ 100 <= 2 ^ 150 ->
+Lemma srun_safe_gen : forall g ops ps B, 0 <= B -> B + Z.of_nat (List.length ops) * 2 ^ 100 <= 2 ^ 150 ->
   forallb sop_ok ops = true -> Forall (psafe B) ps ->
-  exists ps', fold_left sstep ops (Ok ps) = Ok ps' /\ Forall (psafe (B + Z.of_nat (List.length ops) * 2 ^ 100)) ps'.
+  exists ps', fold_left (sstep g) ops (Ok ps) = Ok ps' /\ Forall (psafe (B + Z.of_nat (List.length ops) * 2 ^ 100)) ps'.
 Proof.
-  induction ops as [|o ops IH]; intros ps B HB0 HB Hok H.
+  intros g. induction ops as [|o ops IH]; intros ps B HB0 HB Hok H.
   - exists ps. split; [reflexivity|]. simpl. rewrite Z.add_0_r. assumption.
   - simpl in Hok. apply andb_prop in Hok as [Ho Hok]. assert (P100 : 0 < 2 ^ 100) by reflexivity.
     replace (Z.of_nat (List.length (o :: ops))) with (1 + Z.of_nat (List.length ops)) in * by (simpl List.length; lia).
-    destruct (sstep_safe o ps B ltac:(nia) HB0 Ho H) as (ps1 & E1 & H1).
+    destruct (sstep_safe g o ps B ltac:(nia) HB0 Ho H) as (ps1 & E1 & H1).
     cbn [fold_left]. rewrite E1. destruct (IH ps1 (B + 2 ^ 100) ltac:(lia) ltac:(nia) Hok H1) as (ps' & E & H').
     exists ps'. split; [assumption|]. eapply Forall_impl; [|exact H']. intros; eapply psafe_mono; [|eassumption]. nia.
 Qed.
 
 (* every history of guarded operations (of up to 2^40 operations: the Dec overflow at 2^315 is the only
    thing the bound excludes) runs every end-blocker to completion *)
-Lemma spend_history_never_panics : forall ops, forallb sop_ok ops = true -> Z.of_nat (List.length ops) <= 2 ^ 40 ->
-  exists ps, srun ops = Ok ps.
+Lemma spend_history_never_panics : forall g ops, forallb sop_ok ops = true -> Z.of_nat (List.length ops) <= 2 ^ 40 ->
+  exists ps, srun g ops = Ok ps.
 Proof.
-  intros ops Hok Hlen. assert (2 ^ 40 * 2 ^ 100 <= 2 ^ 150) by (vm_compute; discriminate).
-  destruct (srun_safe_gen ops [] 0 ltac:(lia) ltac:(nia) Hok (Forall_nil _)) as (ps & E & _). eauto.
+  intros g ops Hok Hlen. assert (2 ^ 40 * 2 ^ 100 <= 2 ^ 150) by (vm_compute; discriminate).
+  destruct (srun_safe_gen g ops [] 0 ltac:(lia) ltac:(nia) Hok (Forall_nil _)) as (ps & E & _). eauto.
 Qed.
 
 (* the unguarded code: three reachable histories that stop the chain *)
-Lemma spend_period_zero_refuted : exists ops, srun ops = Panic "div-by-zero".
+Lemma spend_period_zero_refuted : exists ops, srun false ops = Panic "div-by-zero".
 Proof. exists [SCreate true 0 100; SRegister 0 PREC; SDeposit 0 1000; SEnd 105]. reflexivity. Qed.
-Lemma spend_period_wraps_refuted : exists ops, srun ops = Panic "neg-deccoin".
+Lemma spend_period_wraps_refuted : exists ops, srun false ops = Panic "neg-deccoin".
 Proof. exists [SCreate true (two64 - 1) 100; SRegister 0 PREC; SDeposit 0 1000; SEnd 105]. reflexivity. Qed.
-Lemma spend_negative_weight_refuted : exists ops, srun ops = Panic "neg-deccoin".
+Lemma spend_negative_weight_refuted : exists ops, srun false ops = Panic "neg-deccoin".
 Proof. exists [SCreate true 1 100; SRegister 0 (- PREC); SDeposit 0 1000; SEnd 105]. reflexivity. Qed.
+
+(* WITH the guard (the proposed fix: skip a pool whose denominator is not positive) the end-blocker
+   completes on EVERY stored pool list -- no condition on signs, zero periods or wrap-around, only magnitudes *)
+Lemma chop_round_mul_exact_any : forall k, chop_round (k * PREC) = k.
+Proof.
+  intros k. destruct (Z.leb_spec 0 k) as [H|H]; [apply chop_round_mul_exact; assumption|].
+  unfold chop_round. assert (k * PREC < 0) by (unfold PREC; lia). destruct (k * PREC <? 0) eqn:E; [|lia].
+  replace (- (k * PREC)) with ((- k) * PREC) by ring. unfold chop_round_pos.
+  rewrite Z.mod_mul by (unfold PREC; lia). rewrite Z.div_mul by (unfold PREC; lia). simpl. lia.
+Qed.
+Lemma as_int64_bounds : forall z, - two63 <= as_int64 z < two63.
+Proof.
+  intros z. unfold as_int64, wrap64. pose proof (Z.mod_pos_bound z two64 ltac:(reflexivity)) as B.
+  unfold two63, two64 in *. destruct (z mod 18446744073709551616 <? 9223372036854775808) eqn:E; lia.
+Qed.
+Lemma spend_pool_step_guarded : forall now p, pool_bounded p = true -> exists p', spend_pool_step true now p = Ok p'.
+Proof.
+  intros now p H. unfold pool_bounded in H. repeat (apply andb_prop in H as [H ?]).
+  unfold spend_pool_step. destruct (negb (sp_dyn p)); [eauto|].
+  destruct (now <? wrap64 (sp_period p + sp_last p)); [eauto|]. destruct (sp_weight p =? 0); [eauto|].
+  pose proof (as_int64_bounds (sp_period p)) as Bp. set (k := as_int64 (sp_period p)) in *.
+  assert (M : dec_of_int k * sp_weight p = (k * sp_weight p) * PREC) by (unfold dec_of_int; ring).
+  assert (Habs : Z.abs (k * sp_weight p) < 2 ^ 315).
+  { rewrite Z.abs_mul. assert (Z.abs k <= two63) by lia. assert (Z.abs (sp_weight p) < 2 ^ 150) by lia.
+    unfold two63 in *. change (2 ^ 315) with (9223372036854775808 * 2 ^ 252). assert (2 ^ 150 < 2 ^ 252) by reflexivity.
+    assert (0 <= Z.abs (sp_weight p)) by apply Z.abs_nonneg. nia. }
+  unfold dmul. rewrite M, chop_round_mul_exact_any. rewrite (dec_in_range_small _ Habs). simpl.
+  destruct (k * sp_weight p <=? 0) eqn:E; [eauto|].
+  destruct (pool_rates_ok (k * sp_weight p) (sp_bals p)) as [rs Hrs]; [lia| |rewrite Hrs; simpl; eauto].
+  apply Forall_forall. intros b Hb. rewrite forallb_forall in H0. specialize (H0 b Hb). lia.
+Qed.
+Lemma spend_endblock_guarded_never_panics : forall now ps, forallb pool_bounded ps = true ->
+  is_panic (spend_endblock true now ps) = false.
+Proof.
+  intros now ps. induction ps as [|p l IH]; intros H; [reflexivity|].
+  simpl in H. apply andb_prop in H as [Hp Hl]. cbn [spend_endblock].
+  destruct (spend_pool_step_guarded now p Hp) as [p' E]. rewrite E. cbn [bind].
+  specialize (IH Hl). destruct (spend_endblock true now l); simpl in *; congruence.
+Qed.
+(* and the three histories that stop the unguarded chain run through *)
+Lemma spend_refuted_histories_fixed_by_guard :
+  is_ok (srun true [SCreate true 0 100; SRegister 0 PREC; SDeposit 0 1000; SEnd 105]) = true /\
+  is_ok (srun true [SCreate true (two64 - 1) 100; SRegister 0 PREC; SDeposit 0 1000; SEnd 105]) = true /\
+  is_ok (srun true [SCreate true 1 100; SRegister 0 (- PREC); SDeposit 0 1000; SEnd 105]) = true.
+Proof. repeat split; reflexivity. Qed.
 
 (* ------------------------------------------------------------------ proposal enactment *)
 (* content whose Apply panics on EVERY state fails the submission (the dry run), so it is never enacted *)
@@ -319,7 +367,7 @@ Lemma distribution_outgrows_pool_refuted : exists poolbal rate w cstart last now
   apply_proposal (fun pb => claim pb rate w cstart last now2 cend expiry) poolbal = Panic "neg-coin".
 Proof.
   exists 5000, (1000 * PREC), PREC, 0, 1700000005, 1700000008, 1700000031, 0, 1000000.
-  split; [lia|]. split; [reflexivity|]. split; [discriminate|reflexivity].
+  split; [lia|]. split; [vm_compute; reflexivity|]. split; [vm_compute; discriminate|vm_compute; reflexivity].
 Qed.
 
 (* ------------------------------------------------------------------ staking validator-set updates *)
@@ -408,16 +456,16 @@ Proof.
   exfalso. unfold process_quorum in E. destruct (is_quorum _ _ _); discriminate.
 Qed.
 
-Lemma blocks_never_panic : forall now w, world_inv w ->
-  exists w', end_block now w = Ok w' /\ world_inv w'.
+Lemma blocks_never_panic : forall g now w, world_inv w ->
+  exists w', end_block g now w = Ok w' /\ world_inv w'.
 Proof.
-  intros now w (Hg & Hv & Hp). unfold end_block. rewrite (gov_endblock_safe _ Hg). simpl.
+  intros g now w (Hg & Hv & Hp). unfold end_block. rewrite (gov_endblock_safe _ Hg). simpl.
   unfold vend. unfold v_inv in Hv. rewrite Hv. simpl.
-  destruct (spend_endblock_safe now (w_pools w) (2 ^ 150) ltac:(lia) Hp) as (ps & E & Hps). rewrite E. simpl.
+  destruct (spend_endblock_safe g now (w_pools w) (2 ^ 150) ltac:(lia) Hp) as (ps & E & Hps). rewrite E. simpl.
   eexists; split; [reflexivity|]. repeat split; simpl; [constructor|assumption].
 Qed.
 
-Lemma blocks_never_panic_refuted : exists now w, v_inv (w_val w) = true /\ end_block now w = Panic "div-by-zero".
+Lemma blocks_never_panic_refuted : exists now w, v_inv (w_val w) = true /\ end_block false now w = Panic "div-by-zero".
 Proof. exists 105, (mkW [] (mkV [] [] []) [mkSpool true 0 100 PREC [1000]]). split; reflexivity. Qed.
 
 (* ------------------------------------------------------------------ the spec checker accepts exactly the non-panicking model runs *)
